@@ -23,6 +23,12 @@ from ..project import AnalysisError, call_name, norm, order, walk_no_nested
 
 
 def check(run, project):
+    # T8: the bytes a decoder is fed are the bytes of the source, in order: no closure made in a loop over the sources (files,
+    # readers, chunks) reads its loop variable late - else every reader made by the loop reads the last source
+    from .shared import late_binding_closures
+    late_binding_closures(run, project, "T8", sorted(n for n in project.modules if n == "tpmstream.__main__" or n.startswith("tpmstream.io")
+                                                       or n.startswith("tpmstream.common")),
+                          what="with several input files / chunks only the last one is decoded")
     F = pump.analyse(project)
     roles, mod, fn = F.roles, F.roles.mod, F.roles.pump
     run.explanation = "typestate fixpoint over the pump's CFG + who-may-use rules for the source iterator and buffer parameters"
